@@ -6,6 +6,6 @@ TC=/root/go/pkg/mod/golang.org/toolchain@v0.0.1-go1.26.6.linux-amd64/bin
 if [ -d "$TC" ]; then export PATH=$TC:$PATH GOTOOLCHAIN=local; fi
 export GOFLAGS=-mod=mod GOPROXY=off GOSUMDB=off
 mkdir -p ../bin ../evidence ../replays ../work
-go build -tags verif -o ../bin/vharness ./cmd/vharness
-go build -race -tags verif -o ../bin/vharness-race ./cmd/vharness
+go build -tags verif,all -o ../bin/vharness ./cmd/vharness
+go build -race -tags verif,all -o ../bin/vharness-race ./cmd/vharness
 echo setup ok
